@@ -10,7 +10,7 @@
     select_eq_xp_nonpositional select_eq_xp_nonpositional_default select_eq_xp_attribute select_eq_xp_attribute_step
     select_eq_xp_chain_attribute select_eq_xp_chain_attribute_default
     pattern_matches_eq_xp
-    parser_accepts_subset_partial
+    parser_accepts_subset_partial parser_accepts_steps_partial
 -/
 import Genshi.Model.Path
 import Genshi.Model.PathParse
@@ -22,6 +22,7 @@ import Genshi.Lemmas.PathXp
 import Genshi.Lemmas.PathSelect
 import Genshi.Lemmas.PathChain
 import Genshi.Lemmas.PathParseChain
+import Genshi.Lemmas.PathParseSteps
 import Genshi.Lemmas.PathChildPath
 import Genshi.Lemmas.PathUnion
 import Genshi.Lemmas.PathNonPos
@@ -196,6 +197,33 @@ theorem parser_accepts_subset_partial (steps : List (Axis × Str)) (hne : steps 
     (hnames : ∀ p ∈ steps, plainName p.2) :
     parseTokens (chainTokens steps) = .ok [steps.map stepOf] :=
   parse_chain steps hne hnames
+
+/-- **parser_accepts_subset** (partial, second part): location paths without predicates in the
+    syntax people write.  A path is a first step and any number of further steps, each after
+    `/` or `//`; a step is `.`, or an axis part — `axis::` for one of the five axes, nothing
+    (child), or `@` — followed by a name test `name`, `*`, `prefix:name` or `prefix:*` (names
+    being any tokens other than the few the parser treats specially: `okName`).  The
+    recursive-descent parser turns the tokens of every such path, of every length, into exactly
+    the steps it denotes (`pathAst`): `//` contributes `descendant-or-self::node()`, a missing
+    axis is `child`, `@` is `attribute`, `.` is `self::node()`, and the node test carries the
+    "principal node type is attribute" flag of its axis.
+    (Still outside the theorem: the tokenizer regex, node-type tests `text()` …, a leading `//`,
+    predicates and unions — covered by the `decide`-checked examples, the probes and the parse
+    correspondence with the real parser.) -/
+theorem parser_accepts_steps_partial (s0 : StepSyn) (rest : List (Bool × StepSyn))
+    (h0 : s0.wf) (hr : ∀ x ∈ rest, x.2.wf) :
+    parseTokens (pathTokens s0 rest) = .ok [pathAst s0 rest] :=
+  parse_steps s0 rest h0 hr
+
+-- `./a//p:b/@*/descendant::c` is such a path, with the expected tokens and steps
+example : tokenize "./a//p:b/@*/descendant::c".toList
+    = pathTokens .dot [(false, .step .short (.name ['a'])), (true, .step .short (.qname ['p'] ['b'])),
+        (false, .step .attr .star), (false, .step (.explicit .descendant) (.name ['c']))] := by decide +kernel
+example : pathAst .dot [(false, .step .short (.name ['a'])), (true, .step .short (.qname ['p'] ['b'])),
+        (false, .step .attr .star), (false, .step (.explicit .descendant) (.name ['c']))]
+    = [⟨.self, .node, []⟩, ⟨.child, .localName false ['a'], []⟩, ⟨.descendantOrSelf, .node, []⟩,
+       ⟨.child, .qname false ['p'] ['b'], []⟩, ⟨.attribute, .principal true, []⟩,
+       ⟨.descendant, .localName false ['c'], []⟩] := by decide
 
 example : tokenize "child::a/descendant-or-self::b/attribute::c".toList
     = chainTokens [(.child, ['a']), (.descendantOrSelf, ['b']), (.attribute, ['c'])] := by decide +kernel
